@@ -267,6 +267,9 @@ def gen(rng, tier):
     for sc in _gen(rng, tier):
         # schedule widening inside the critical sections; has an effect only when the tree carries the trace hooks
         sc["jitter"] = rng.choice([0, 0, 2, 5, 20])
+        # the kmsg descriptor may interrupt or shorten a write(2)
+        if "kmsg" in _kinds(sc) and rng.random() < 0.5:
+            sc["kmsg_io"] = rng.choice(["eintr", "short"])
         yield sc
 
 
@@ -335,6 +338,7 @@ def extra_coverage(results):
     return {"lines_delivered": lines, "lines_logged": exp, "drops_reported": sum(v.get("reported", 0) for _, _, v in results),
             "max_unwritten_seen": max([v.get("worst_unwritten", 0) for _, _, v in results] or [0]),
             "hook_events_replayed": ev,
+            "kmsg_writes_interrupted_or_short": sum(t.get("kmsg_faults", 0) for _, t, _ in results),
             "late_shutdown_scenarios": sum(1 for s, _, _ in results if s.get("family") == "late"),
             "late_shutdown_precondition_unmet": sum(1 for _, t, _ in results if t.get("late_precondition_unmet")),
             "linearisation_replay": "on (trace hooks present in the tree)" if ev else "off (no trace hooks in the tree: accepts = outside-visible model invariants only)"}
